@@ -57,6 +57,42 @@ def wrap_stage(ck, checks, prop):
     ck.ev.cov["long_histories"] = len(cases)
 
 
+def sweeps_stage(ck, checks, tag, algos):
+    """L2 models of the sweeps that consume a traversal order (Sweeps.tla) + B1: the graphs the model ranges
+    over are written out by TLC, installed in real flow graphs through a user-defined router (the library's
+    extension point) and run through the real order algorithms, accumulate, basins and kernels."""
+    q = ck.tier == "quick"
+    out = os.path.join(ck.workdir, "sweep-graphs-%s.ndjson" % tag)
+    note_acc = "L2 accumulate sweep on EVERY forest / DAG (<= 2 receivers per node, every partition of the flow incl. zero shares, signed sources, variable areas) and EVERY order satisfying FlowContract!C06Dfs: terminal state satisfies AccBalance / AccConserves / AccLocalBound"
+    note_bas = "L2 compute_basins + pits on EVERY forest, mask and base-level set over the terminals, and EVERY receivers-first order that lists each outlet before its whole catchment (BasinContiguous, delivered by the dfs algorithm: Orders!ContigOK): terminal state satisfies FlowContract!C19"
+    gen_model = None
+    if "accumulate" in algos:
+        gen_model = ck.model("Sweeps-accumulate-4nodes-dags", "MCSweeps.tla", "MCSweeps_acc4.cfg", note=note_acc, env={"SWEEPS_OUT": out},
+                             required_actions=("AccStep",), timeout=3000)
+        ck.model("Sweeps-accumulate-4nodes-forests", "MCSweeps.tla", "MCSweeps_acc4s.cfg", note=note_acc, timeout=3000)
+        ck.model("Sweeps-accumulate-any-order", "MCSweeps.tla", "MCSweeps_acc3_anyorder.cfg", expect="violation",
+                 note="negative control: an order that does not put receivers first breaks the balance")
+        ck.model("Sweeps-accumulate-skip-nonpositive", "MCSweeps.tla", "MCSweeps_acc3_skip.cfg", expect="violation",
+                 note="negative control (seeded change C03): nodes with acc <= 0 not propagated, signed sources")
+    if "basins" in algos:
+        r = ck.model("Sweeps-basins-%dnodes" % (4 if q else 5), "MCSweeps.tla", "MCSweeps_basins4.cfg" if q else "MCSweeps_basins5.cfg",
+                     note=note_bas, env=None if gen_model else {"SWEEPS_OUT": out}, required_actions=("BasinStep", "PitsStep"), timeout=3000)
+        ck.model("Sweeps-basins-contract-order-only", "MCSweeps.tla", "MCSweeps_basins4_contract.cfg", expect="violation",
+                 note="negative control: receivers-first alone (C06Dfs) is not enough for compute_basins, which labels with the current counter")
+        ck.model("Orders-dfs-bottomup-contiguous", "Orders.tla", "MCOrders_dfsbu4.cfg" if q else "MCOrders_dfsbu5.cfg", workers=16, timeout=3000,
+                 note="the bottom-up dfs algorithm delivers the order compute_basins needs (ContigOK) on every forest")
+    if not algos:
+        ck.model("Sweeps-graphs-4nodes", "MCSweeps.tla", "MCSweeps_gen4.cfg", note=note_acc + " (non-negative sources; run here as the generator of the graphs)",
+                 env={"SWEEPS_OUT": out}, timeout=3000)
+    if ck.violations and q:
+        return
+    graphs = [json.loads(l) for l in open(out)]
+    ck.ev.cov["graphs_enumerated_by_tlc"] = len(graphs)
+    cases = list(cf.inject_cases(graphs, ck.seed + 700, tag, big=40 if q else 1500))
+    ck.traces(cases, checks, tag=tag, nontrivial=lambda c: True, sample_events=("Update", "Accumulate", "Basins", "Kernel"))
+    ck.ev.cov["installed_graphs"] = len(graphs) + (40 if q else 1500)
+
+
 def plan_C01(ck):
     q = ck.tier == "quick"
     basin_models(ck, "L2 mst resolver: every terminal state satisfies FlowContract!C01 (terminals, strict descent, reaches a base level), the receivers stay a forest, the tree is a minimal spanning forest, termination")
@@ -131,6 +167,11 @@ def plan_C06(ck):
               nontrivial=cf.nontrivial_world)
     if q and ck.violations:
         return
+    # every forest / DAG on 4 nodes (enumerated by TLC) + random larger ones installed by a user-defined router:
+    # the real traversal-order algorithms on graphs no grid router produces
+    sweeps_stage(ck, ["C06"], "c06inj", ())
+    if q and ck.violations:
+        return
     # graph snapshots are flow graphs too: the tables they expose are checked like any other state
     ck.traces(cf.snapshot_cases(ck.seed + 160, 40 if q else 800, 5, "C06snap"), ["C06"], tag="c06snap", nontrivial=cf.nontrivial_world)
 
@@ -139,6 +180,9 @@ def plan_C19(ck):
     q = ck.tier == "quick"
     ck.traces(cf.state_cases(ck.seed + 19, 150 if q else 4000, 5 if q else 8, "C19", extra="basins"), ["C19"], tag="c19",
               nontrivial=cf.nontrivial_world)
+    if q and ck.violations:
+        return
+    sweeps_stage(ck, ["C19"], "c19inj", ("basins",))
     # snapshot graphs are flow graphs too: basins() on them, repeatedly, across updates of the owner
     ck.traces(cf.snapshot_cases(ck.seed + 119, 60 if q else 1500, 4 if q else 6, "C19snap"), ["C19"], tag="c19snap",
               nontrivial=cf.nontrivial_world, sample_events=("Basins",))
@@ -146,6 +190,9 @@ def plan_C19(ck):
 
 def plan_C03(ck):
     q = ck.tier == "quick"
+    sweeps_stage(ck, ["C03"], "c03inj", ("accumulate",))
+    if q and ck.violations:
+        return
     ck.traces(cf.state_cases(ck.seed + 3, 120 if q else 3000, 4 if q else 6, "C03", extra="acc"), ["C03"], tag="c03",
               nontrivial=cf.nontrivial_world)
 
